@@ -143,8 +143,9 @@ class Probe(object):
         tup = '(%s,)' % ', '.join(["'R'"] + parts)
         if result_mode == 'str':
             tup = 'repr(%s)' % tup
-        # about a third of the bindings map to a falsy result (None, 0, '', False): a cache
-        # that mistakes a stored falsy value for "absent" must be visible
+        # half of the bindings map to a falsy result (None, 0, '', False) or to a numeric-looking string
+        # ('5.0', '007'): a cache that mistakes a stored falsy value for "absent", or a backend that
+        # coerces text to numbers, must be visible
         src = ('def _FALSY(r):\n'
                '    try:\n'
                '        h = sum(ord(c) for c in repr(r)) %% 12\n'
@@ -154,6 +155,8 @@ class Probe(object):
                '    if h == 1: return 0\n'
                '    if h == 2: return \'\'\n'
                '    if h == 3: return False\n'
+               '    if h == 4: return \'5.0\'\n'
+               '    if h == 5: return \'007\'\n'
                '    return r\n'
                'def P(%s):\n'
                '    _LOG.append(1)\n'
